@@ -286,6 +286,12 @@ def request_fields(cx):
             pairs = list(zip(ty[3], tm[3]))
         elif ty[0] == "enum":
             pairs = [(ty, tm)]
+        elif ty[0] == "phi" or tm[0] == "phi":
+            # chosen in separate places from one selector: the pairs that occur along the paths to the send
+            from ..engine import path_variants
+            pairs = path_variants(cx, t.site, (ty, tm))
+            if pairs is not None and any(a[0] == "phi" or b[0] == "phi" for a, b in pairs):
+                pairs = None
         ok = pairs is not None
         if ok:
             for a, b in pairs:
